@@ -174,17 +174,10 @@ def KCond.WF (ntries : Nat) : KCond → Prop
   | .dscp v => v < 256
   | _ => True
 
-/-- LAN packets carry no process name; a WAN packet whose process is unknown meets no rule for
-exactly that (empty) name — the honest form of `is_wan` vs `processName[0] != 0`. -/
-def PnameOK (pk : PktK) (c : KCond) : Prop :=
-  (pk.wanw % 256 = 0 → pk.pname.headD 0 = 0) ∧
-  (pk.wanw % 256 ≠ 0 → pk.pname.headD 0 = 0 → c ≠ .processName pk.pname)
-
-structure EntryOK (pk : PktK) (ntries : Nat) (k : KEntry) : Prop where
+structure EntryOK (ntries : Nat) (k : KEntry) : Prop where
   cond : k.cond.WF ntries
   ob : k.outbound < 256
   mark : k.mark < 2 ^ 32
-  pname : PnameOK pk k.cond
 
 structure Hyp (m : KMaps) (pk : PktK) (start : Nat) (tries : List (List Prefix)) (ubm : List Nat) : Prop where
   lpm : ∀ idx (h : idx < tries.length), m.lpmAt (ringSlot start idx) = some (tries[idx].map cidrToKey)
@@ -195,6 +188,7 @@ structure Hyp (m : KMaps) (pk : PktK) (start : Nat) (tries : List (List Prefix))
   l4 : pk.l4w < 256
   ipv : pk.ipw < 256
   dscp : pk.dscpw < 256
+  lanNoPname : pk.wanw % 256 = 0 → pk.pname.headD 0 = 0
   dom : ∀ w, m.domainWord pk.daddr w = ubm.getD w 0
 
 def bitmapBitW (bm : List Nat) (w s : Nat) : Bool := decide (w < bm.length) && ((bm.getD w 0 >>> s) &&& 1 > 0)
@@ -219,7 +213,7 @@ theorem lpm_case (m : KMaps) (pk : PktK) (start : Nat) (tries : List (List Prefi
   rw [set_good_if]; simp
 
 theorem eval_spec (m : KMaps) (pk : PktK) (start : Nat) (tries : List (List Prefix)) (ubm : List Nat)
-    (H : Hyp m pk start tries ubm) (k : KEntry) (hk : EntryOK pk tries.length k) (i : Nat) (hi : i < MaxMatchSetLen)
+    (H : Hyp m pk start tries ubm) (k : KEntry) (hk : EntryOK tries.length k) (i : Nat) (hi : i < MaxMatchSetLen)
     (mu dns : Bool) (r : Int) (di db : Nat) (dc : Bool) (hc : dc = true → db = m.domainWord pk.daddr di) :
     ∃ di' db' dc', (dc' = true → db' = m.domainWord pk.daddr di') ∧
       evalMatch .little m pk ⟨mkS false false mu dns, r, di, db, dc⟩ (encodeGo .little (k.rewrite start)) i =
@@ -324,19 +318,11 @@ theorem eval_spec (m : KMaps) (pk : PktK) (start : Nat) (tries : List (List Pref
       rw [msPname_enc]; simp only [KCond.value]; rw [pad16_of_length bs hcw]; exact range16_map_byteAt bs hcw
     simp only [h1]
     rw [set_good_if]
-    have hp := hk.pname
-    simp only [PnameOK] at hp
-    have key : (pk.wanw % 256 != 0 && bs == pk.pname) = (pk.pname.headD 0 != 0 && bs == pk.pname) := by
+    have key : (pk.wanw % 256 != 0 && pk.pname.headD 0 != 0 && bs == pk.pname) = (pk.pname.headD 0 != 0 && bs == pk.pname) := by
       by_cases hw : pk.wanw % 256 = 0
-      · rw [hw, hp.1 hw]
+      · rw [hw, H.lanNoPname hw]; rfl
       · have e0 : (pk.wanw % 256 != 0) = true := by rw [bne_iff_ne]; exact hw
-        by_cases hh : pk.pname.headD 0 = 0
-        · have hne := hp.2 hw hh
-          have hb : (bs == pk.pname) = false := by
-            rw [beq_eq_false_iff_ne]; exact fun e => hne (by rw [e])
-          rw [hh, hb]; simp
-        · have e1 : (pk.pname.headD 0 != 0) = true := by rw [bne_iff_ne]; exact hh
-          rw [e0, e1]
+        rw [e0, Bool.true_and]
     simp only [evalU, Bool.decide_eq_true]
     rw [key]
   | dscp v =>
@@ -409,7 +395,7 @@ theorem routingAt_some (m : KMaps) (i : Nat) (x : List Nat) (h : m.routingAt i =
   · simp [hi] at h
 
 theorem loopCb_spec (m : KMaps) (pk : PktK) (start : Nat) (tries : List (List Prefix)) (ubm : List Nat)
-    (H : Hyp m pk start tries ubm) (k : KEntry) (hk : EntryOK pk tries.length k) (i : Nat)
+    (H : Hyp m pk start tries ubm) (k : KEntry) (hk : EntryOK tries.length k) (i : Nat)
     (hr : m.routingAt i = some (encodeGo .little (k.rewrite start)))
     (g b mu dns : Bool) (r : Int) (di db : Nat) (dc : Bool) (hc : dc = true → db = m.domainWord pk.daddr di) :
     ∃ di' db' dc', (dc' = true → db' = m.domainWord pk.daddr di') ∧
@@ -458,7 +444,7 @@ theorem loop_spec (m : KMaps) (pk : PktK) (start : Nat) (tries : List (List Pref
     (H : Hyp m pk start tries ubm) (dns : Bool) :
     ∀ (ks : List KEntry) (i : Nat) (g b mu : Bool) (di db : Nat) (dc : Bool),
       (∀ j (h : j < ks.length), m.routingAt (i + j) = some (encodeGo .little ((ks[j]).rewrite start))) →
-      (∀ k ∈ ks, EntryOK pk tries.length k) →
+      (∀ k ∈ ks, EntryOK tries.length k) →
       (dc = true → db = m.domainWord pk.daddr di) →
       (bpfLoop (loopCb .little m pk) ks.length i ⟨mkS g b mu dns, -ENOEXEC, di, db, dc⟩).result =
         match scanAux (evalU tries ubm pk) (toEntriesFrom i ks) g b mu with
@@ -476,7 +462,7 @@ theorem loop_spec (m : KMaps) (pk : PktK) (start : Nat) (tries : List (List Pref
       have := hr (j + 1) (by simp; omega)
       simpa [Nat.add_assoc, Nat.add_comm 1 j] using this
     have hk0 := hk k (List.mem_cons_self)
-    have hks : ∀ k' ∈ ks, EntryOK pk tries.length k' := fun k' h => hk k' (List.mem_cons_of_mem _ h)
+    have hks : ∀ k' ∈ ks, EntryOK tries.length k' := fun k' h => hk k' (List.mem_cons_of_mem _ h)
     obtain ⟨di', db', dc', hc', he⟩ := loopCb_spec m pk start tries ubm H k hk0 i hr0 g b mu dns (-ENOEXEC) di db dc hc
     simp only [List.length_cons, bpfLoop, he, toEntriesFrom, scanAux]
     generalize (if (b || g) = true then g else evalU tries ubm pk (i, k.cond)) = g'
@@ -513,6 +499,8 @@ structure PktOK (pk : PktK) : Prop where
   l4 : pk.l4w < 256
   ipv : pk.ipw < 256
   dscp : pk.dscpw < 256
+  /-- the LAN hook passes `flag[2..5] = 0` (no process name) -/
+  lanNoPname : pk.wanw % 256 = 0 → pk.pname.headD 0 = 0
 
 theorem c0_eq (pk : PktK) : (if isDnsQuery pk then ST_DNS else 0) = mkS false false false (isDnsQuery pk) := by
   cases isDnsQuery pk <;> rfl
@@ -522,9 +510,9 @@ theorem pack_nonneg (a b : Nat) (c : Bool) : pack a b c ≥ 0 := by
 
 theorem routeK_main (m : KMaps) (pk : PktK) (start : Nat) (kp : List KEntry) (tries : List (List Prefix))
     (ubm : List Nat) (hI : Installed m start kp tries) (hT : ∀ t ∈ tries, ∀ p ∈ t, p.WF) (hP : PktOK pk)
-    (hD : ∀ w, m.domainWord pk.daddr w = ubm.getD w 0) (hK : ∀ k ∈ kp, EntryOK pk tries.length k) :
+    (hD : ∀ w, m.domainWord pk.daddr w = ubm.getD w 0) (hK : ∀ k ∈ kp, EntryOK tries.length k) :
     routeK .little m pk = expectedK pk (matchU kp tries ubm pk) := by
-  have H : Hyp m pk start tries ubm := ⟨hI.lpm, hT, hP.saddr, hP.daddr, hP.mac, hP.l4, hP.ipv, hP.dscp, hD⟩
+  have H : Hyp m pk start tries ubm := ⟨hI.lpm, hT, hP.saddr, hP.daddr, hP.mac, hP.l4, hP.ipv, hP.dscp, hP.lanNoPname, hD⟩
   have hr : ∀ j (h : j < kp.length), m.routingAt (0 + j) = some (encodeGo .little ((kp[j]).rewrite start)) := by
     intro j hj
     have hb := hI.bound
@@ -793,13 +781,11 @@ theorem matchU_some_bounds (kp : List KEntry) (tries : List (List Prefix)) (ubm 
 instance (n : Nat) (c : KCond) : Decidable (KCond.WF n c) := by
   cases c <;> unfold KCond.WF <;> infer_instance
 
-instance (pk : PktK) (c : KCond) : Decidable (PnameOK pk c) := by unfold PnameOK; infer_instance
-
 instance (p : Prefix) : Decidable p.WF := by unfold Prefix.WF; infer_instance
 
-instance (pk : PktK) (n : Nat) (k : KEntry) : Decidable (EntryOK pk n k) :=
-  decidable_of_iff (k.cond.WF n ∧ k.outbound < 256 ∧ k.mark < 2 ^ 32 ∧ PnameOK pk k.cond)
-    ⟨fun ⟨a, b, c, d⟩ => ⟨a, b, c, d⟩, fun h => ⟨h.cond, h.ob, h.mark, h.pname⟩⟩
+instance (n : Nat) (k : KEntry) : Decidable (EntryOK n k) :=
+  decidable_of_iff (k.cond.WF n ∧ k.outbound < 256 ∧ k.mark < 2 ^ 32)
+    ⟨fun ⟨a, b, c⟩ => ⟨a, b, c⟩, fun h => ⟨h.cond, h.ob, h.mark⟩⟩
 
 theorem Installed.with_domain {m : KMaps} {start : Nat} {kp : List KEntry} {tries : List (List Prefix)}
     (h : Installed m start kp tries) (dom : List (Nat × List Nat)) : Installed { m with domain := dom } start kp tries :=
